@@ -29,6 +29,17 @@ spec fn fl(b: Seq<u8>) -> int
     }
 }
 
+/// The lines of b, each including its line ending: CR, LF and CRLF each end one line.
+spec fn lines(b: Seq<u8>) -> Seq<Seq<u8>>
+    decreases b.len()
+{
+    let f = fl(b);
+    if b.len() == 0 || f <= 0 || f > b.len() {
+        Seq::<Seq<u8>>::empty()
+    } else {
+        seq![b.take(f)] + lines(b.skip(f))
+    }
+}
 proof fn lemma_fl_at(b: Seq<u8>, p: int)
     requires 0 <= p < b.len(), is_nl(b[p]), no_nl(b, 0, p),
     ensures fl(b) == p + ending_len(b, p),
@@ -119,11 +130,13 @@ fn memrchr2(n1: u8, n2: u8, haystack: &[u8]) -> (r: Option<usize>)
         },
 { unimplemented!() }
 
-/// UniversalNewlineIterator::from(text).count(): the number of lines of the slice.  Only "it returns"
-/// is assumed here - the ROW arithmetic of the incremental locator is not part of this unit
-/// (bounded: C13.k.locate_once_*, C13.n.locators_agree).
+/// UniversalNewlineIterator::from(text).count(): the number of lines of the slice - assumed: Iterator::count
+/// is the number of next() calls that return Some, and next() is PROVED in the unit newlines to peel
+/// exactly fl(text) bytes per call (C15.v.newline_next), which is the recursion of lines(); the
+/// definitions of fl and lines are checked to be the same text as there.
 #[verifier::external_body]
 fn count_lines(text: &[u8]) -> (r: usize)
+    ensures r == lines(text@).len(),
 { unimplemented!() }
 
 /// Character count of source[line_start..][..column] (non-ASCII lines): abstract here, covered by
@@ -286,6 +299,8 @@ spec fn st_wf_at(b: Seq<u8>, s: LinearLocatorState, c: int) -> bool {
     let l = s.line_start.raw as int;
     &&& is_line_start(b, l)
     &&& l <= c <= b.len()
+    // row = 1 + the number of line breaks (CR, LF, CRLF once each) that end at or before the line start
+    &&& s.line_number.v as int == 1 + nbe(b, l)
     &&& no_nl(b, l, c)
     &&& match s.line_end {
             Some(e) => exists|p: int| #[trigger] first_nl_at(b, l, p) && e.raw as int == p + ending_len(b, p) && c <= p
@@ -327,6 +342,13 @@ impl LinearLocatorState {
                 lemma_first_content(source@, source@.len() as int);
             }
 //@@ ENDBEFORE
+//@@ AFTER 1 <<<let line_number = OneIndexed::min_value();>>>
+        proof {
+            // no line break ends at or before the first column of line 1 (the BOM bytes are not line breaks)
+            if has_bom(source@) { lemma_nbe_flat(source@, 0, 3); }
+            assert(nbe(source@, 0) == 0);
+        }
+//@@ ENDAFTER
 //@@ END
 
 //@@ EXTRACT file=core/src/source_code.rs anchor=<<<fn new_line_start(&self, next_offset: TextSize) -> Option<TextSize> {>>>
@@ -350,9 +372,119 @@ impl LinearLocatorState {
 //@@ SUB 1 <<<index: LineIndex,>>> ==> <<<>>>
 //@@ END
 
+/// Number of line breaks (CR, LF, CRLF once each) that END at or before offset o.
+spec fn nbe(b: Seq<u8>, o: int) -> int
+    decreases o
+{
+    if o <= 0 { 0 } else { nbe(b, o - 1) + (if is_break_end(b, o) { 1int } else { 0int }) }
+}
+
+/// No line break byte in [x-1 .. y-1)  ==>  no break ends in (x, y].
+proof fn lemma_nbe_flat(b: Seq<u8>, x: int, y: int)
+    requires 0 <= x <= y <= b.len(), forall|k: int| x <= k < y ==> !is_nl(#[trigger] b[k]),
+    ensures nbe(b, y) == nbe(b, x),
+    decreases y - x
+{
+    if x < y {
+        lemma_nbe_flat(b, x, y - 1);
+        assert(!is_nl(b[y - 1]));
+        assert(!is_break_end(b, y));
+    }
+}
+
+/// First nl position of a non-empty sequence that contains one.
+proof fn lemma_first_nl(s: Seq<u8>, last: int) -> (q: int)
+    requires 0 <= last < s.len(), is_nl(s[last]),
+    ensures 0 <= q <= last, is_nl(s[q]), no_nl(s, 0, q),
+    decreases last
+{
+    if last == 0 { 0 }
+    else if exists|k: int| 0 <= k < last && is_nl(#[trigger] s[k]) {
+        let k = choose|k: int| 0 <= k < last && is_nl(#[trigger] s[k]);
+        lemma_first_nl(s, k)
+    } else {
+        assert(no_nl(s, 0, last));
+        last
+    }
+}
+
+/// The lines of the text between c and a line-break end e are as many as the line breaks ending in (c, e].
+proof fn lemma_lines_count(b: Seq<u8>, c: int, e: int)
+    requires 0 <= c <= e <= b.len(), c == e || is_break_end(b, e), !mid_crlf(b, c),
+    ensures lines(b.subrange(c, e)).len() == nbe(b, e) - nbe(b, c),
+    decreases e - c
+{
+    let s = b.subrange(c, e);
+    if c == e {
+        assert(s.len() == 0);
+    } else {
+        assert(s[s.len() - 1] == b[e - 1]);
+        let q = lemma_first_nl(s, s.len() - 1);
+        lemma_fl_at(s, q);
+        let f = q + ending_len(s, q);
+        assert(s[q] == b[c + q]);
+        // the ending has the same length in s and in b (a CR that is the last byte of s is not followed by LF: e is a break end)
+        assert(ending_len(s, q) == ending_len(b, c + q)) by {
+            if q + 1 < s.len() { assert(s[q + 1] == b[c + q + 1]); }
+        }
+        assert(f <= s.len());
+        let c2 = c + f;
+        // exactly one break end in (c, c2]
+        assert forall|k: int| c <= k < c + q implies !is_nl(#[trigger] b[k]) by { assert(s[k - c] == b[k]); }
+        lemma_nbe_flat(b, c, c + q);
+        assert(is_break_end(b, c2));
+        if ending_len(b, c + q) == 2 {
+            assert(!is_break_end(b, c + q + 1));
+            assert(nbe(b, c2) == nbe(b, c + q + 1) + 1);
+            assert(nbe(b, c + q + 1) == nbe(b, c + q));
+        } else {
+            assert(nbe(b, c2) == nbe(b, c + q) + 1);
+        }
+        assert(!mid_crlf(b, c2));
+        assert(s.skip(f) =~= b.subrange(c2, e));
+        lemma_lines_count(b, c2, e);
+        assert(lines(s) == seq![s.take(f)] + lines(s.skip(f)));
+    }
+}
+
+proof fn lemma_nbe_le(b: Seq<u8>, o: int)
+    requires 0 <= o,
+    ensures 0 <= nbe(b, o) <= o,
+    decreases o
+{
+    if o > 0 { lemma_nbe_le(b, o - 1); }
+}
+
+/// The line break that ends the current line is the only one ending in (l, p + its length].
+proof fn lemma_one_break(b: Seq<u8>, l: int, p: int)
+    requires 0 <= l, first_nl_at(b, l, p),
+    ensures nbe(b, p + ending_len(b, p)) == nbe(b, l) + 1, is_break_end(b, p + ending_len(b, p)),
+{
+    lemma_nbe_flat(b, l, p);
+    let e = p + ending_len(b, p);
+    if ending_len(b, p) == 2 {
+        assert(!is_break_end(b, p + 1));
+        assert(nbe(b, e) == nbe(b, p + 1) + 1);
+        assert(nbe(b, p + 1) == nbe(b, p));
+    } else {
+        assert(nbe(b, e) == nbe(b, p) + 1);
+    }
+}
+
+/// The cursor of a well-formed state never splits a CR LF.
+proof fn lemma_cursor_not_mid(b: Seq<u8>, s: LinearLocatorState)
+    requires st_wf(b, s),
+    ensures !mid_crlf(b, s.cursor.raw as int), nbe(b, s.cursor.raw as int) == nbe(b, s.line_start.raw as int),
+{
+    let l = s.line_start.raw as int; let c = s.cursor.raw as int;
+    lemma_nbe_flat(b, l, c);
+    if c > l { assert(!is_nl(b[c - 1])); }
+}
+
 /// What one query of the incremental locator guarantees (rows excluded, see count_lines).
 spec fn located(b: Seq<u8>, st: LinearLocatorState, o: int, column: OneIndexed) -> bool {
     &&& st_wf_at(b, st, o)
+    &&& st.line_number.v as int == 1 + nbe(b, o)
     &&& (st.is_ascii ==> column.v as int == o - st.line_start.raw + 1 || (column.v == u32::MAX && o - st.line_start.raw == u32::MAX))
 }
 
@@ -394,7 +526,7 @@ spec fn pre_focus_last(b: Seq<u8>, e0: int, o: int, i: int) -> bool {
 /// The last line break byte before the offset: the byte after it starts the offset's line.
 proof fn lemma_focus_last(b: Seq<u8>, e0: int, o: int, i: int)
     requires pre_focus_last(b, e0, o, i),
-    ensures is_nl(b[e0 + i]), no_nl(b, e0 + i + 1, o), is_line_start(b, e0 + i + 1),
+    ensures is_nl(b[e0 + i]), no_nl(b, e0 + i + 1, o), is_line_start(b, e0 + i + 1), is_break_end(b, e0 + i + 1),
 {
     let f = b.subrange(e0, o);
     assert(f[i] == b[e0 + i]);
@@ -461,6 +593,7 @@ proof fn lemma_same_line(b: Seq<u8>, s: LinearLocatorState, o: int)
 /// Moving the cursor to the located offset keeps the invariant (the line break witness is the same).
 proof fn lemma_move_cursor(b: Seq<u8>, s: LinearLocatorState, s2: LinearLocatorState, o: int)
     requires st_wf_at(b, s, o), s2.line_start == s.line_start, s2.line_end == s.line_end, s2.is_ascii == s.is_ascii,
+        s2.line_number == s.line_number,
         s2.cursor.raw as int == o,
     ensures st_wf(b, s2), st_wf_at(b, s2, o),
 {
@@ -479,7 +612,7 @@ impl<'a> LinearLocator<'a> {
 //@@ SIG
     fn locate_inner(&mut self, offset: TextSize) -> (r: (OneIndexed, Option<LinearLocatorState>))
         requires
-            old(self).source@.len() <= u32::MAX,
+            old(self).source@.len() < u32::MAX, // 1 + number of line breaks fits u32: OneIndexed does not saturate
             st_wf(old(self).source@, old(self).state),
             old(self).state.line_number.v >= 1,
             old(self).state.cursor.raw <= offset.raw <= old(self).source@.len(), // forward-only cursor
@@ -494,6 +627,8 @@ impl<'a> LinearLocator<'a> {
                 let st = match r.1 { Some(s) => s, None => old(self).state };
                 // the (new) state describes the line that contains the offset ...
                 &&& st_wf_at(b, st, offset.raw as int)
+                // ROW: 1 + the number of line breaks (CR, LF, CRLF once each) that end at or before the offset
+                &&& st.line_number.v as int == 1 + nbe(b, offset.raw as int)
                 &&& (r.1.is_some() ==> st.cursor == offset && st.line_number.v >= 1)
                 // ... and on an all-ASCII line the 1-based column is the byte distance from that line's first byte
                 &&& (st.is_ascii ==> r.0.v as int == offset.raw - st.line_start.raw + 1 || (r.0.v == u32::MAX && offset.raw - st.line_start.raw == u32::MAX))
@@ -511,6 +646,13 @@ let lines = UniversalNewlineIterator::from(
 //@@ SUB 1 <<<let column = (offset - new_line_start).to_u32();>>> ==> <<<let column = offset.raw - new_line_start.raw;>>>
 //@@ SUBRE 2 <<<let is_ascii = self\.source\[([^\]]*)\]\.is_ascii\(\);>>> ==> <<<let is_ascii = slice_is_ascii(&self.source[\1]);>>>
 //@@ SUB 1 <<<let column = (offset - self.state.line_start).to_u32();>>> ==> <<<let column = offset.raw - self.state.line_start.raw;>>>
+//@@ AFTER 1 <<<let state = new_state.as_ref().unwrap_or(&self.state);>>>
+        proof {
+            // no line break ends between the line start and the offset: same row
+            let b = self.source@; let l = state.line_start.raw as int;
+            if 0 <= l <= offset.raw as int <= b.len() && no_nl(b, l, offset.raw as int) { lemma_nbe_flat(b, l, offset.raw as int); }
+        }
+//@@ ENDAFTER
 //@@ SUBBLOCK 1
 self.source[state.line_start.to_usize()..][..column as usize]
 .chars()
@@ -523,6 +665,14 @@ self.source[state.line_start.to_usize()..][..column as usize]
                         if pre_focus_last(self.source@, new_line_start.raw as int, offset.raw as int, last_newline - new_line_start.raw) {
                             lemma_focus_last(self.source@, new_line_start.raw as int, offset.raw as int, last_newline - new_line_start.raw);
                         }
+                        // rows: the lines skipped are as many as the line breaks ending in (cursor, line_start]
+                        let b = self.source@; let c = self.state.cursor.raw as int;
+                        lemma_cursor_not_mid(b, self.state);
+                        if 0 <= c <= line_start as int <= b.len() && is_break_end(b, line_start as int) {
+                            lemma_lines_count(b, c, line_start as int);
+                        }
+                        lemma_nbe_le(b, line_start as int);
+                        lemma_nbe_le(b, c);
                     }
 //@@ ENDAFTER
 //@@ AFTER 1 <<<let column = offset.raw - new_line_start.raw;>>>
@@ -532,6 +682,8 @@ self.source[state.line_start.to_usize()..][..column as usize]
                         if pre_focus_none(b, l, p, new_line_start.raw as int, offset.raw as int) {
                             lemma_focus_none(b, l, p, new_line_start.raw as int, offset.raw as int);
                         }
+                        if 0 <= l && first_nl_at(b, l, p) { lemma_one_break(b, l, p); }
+                        lemma_nbe_le(b, new_line_start.raw as int);
                     }
 //@@ ENDAFTER
 //@@ AFTER 1 <<<re:let is_ascii = slice_is_ascii\(&self\.source\[[^\]]*\.\.\w+\]\);>>>
@@ -585,7 +737,7 @@ offset.to_usize(),
 //@@ SIG
     fn locate(&mut self, offset: TextSize) -> (r: SourceLocation)
         requires
-            old(self).source@.len() <= u32::MAX,
+            old(self).source@.len() < u32::MAX,
             st_wf(old(self).source@, old(self).state),
             old(self).state.line_number.v >= 1,
             old(self).state.cursor.raw <= offset.raw <= old(self).source@.len(), // R8: the debug_assert! is the precondition
@@ -597,6 +749,7 @@ offset.to_usize(),
             final(self).state.cursor == offset,
             final(self).state.line_number.v >= 1,
             r.row == final(self).state.line_number,
+            r.row.v as int == 1 + nbe(old(self).source@, offset.raw as int),
             located(old(self).source@, final(self).state, offset.raw as int, r.column),
 //@@ ENDSIG
 //@@ SUBBLOCK 1
@@ -625,7 +778,7 @@ offset,
 //@@ SIG
     fn locate_only(&mut self, offset: TextSize) -> (r: SourceLocation)
         requires
-            old(self).source@.len() <= u32::MAX,
+            old(self).source@.len() < u32::MAX,
             st_wf(old(self).source@, old(self).state),
             old(self).state.line_number.v >= 1,
             old(self).state.cursor.raw <= offset.raw <= old(self).source@.len(),
@@ -634,6 +787,8 @@ offset,
             // a look-ahead query leaves the locator exactly as it was
             final(self).source@ == old(self).source@,
             final(self).state == old(self).state,
+            // ROW: 1 + the number of line breaks ending at or before the offset, whether or not the offset is on the current line
+            r.row.v as int == 1 + nbe(old(self).source@, offset.raw as int),
             // an offset on the current line is reported from the current state (the other case is locate_inner's contract)
             (old(self).state.line_end.is_none() || old(self).state.line_end.unwrap().raw > offset.raw) ==>
                 located(old(self).source@, old(self).state, offset.raw as int, r.column) && r.row == old(self).state.line_number,
@@ -646,7 +801,7 @@ offset,
 /// inductive step for any longer non-decreasing sequence).
 fn reach_locate(source: &[u8], o1: TextSize, o2: TextSize) -> (r: (SourceLocation, SourceLocation))
     requires
-        source@.len() <= u32::MAX,
+        source@.len() < u32::MAX,
         (if has_bom(source@) { 3u32 } else { 0u32 }) <= o1.raw <= o2.raw <= source@.len(),
         !mid_crlf(source@, o1.raw as int), !mid_crlf(source@, o2.raw as int),
 {
@@ -718,6 +873,35 @@ proof fn theorem_locators_same_line(idx: Seq<TextSize>, b: Seq<u8>, st: LinearLo
             assert(is_nl(b[e - 1]));
             assert(false);
         }
+    }
+}
+
+/// THEOREM (rows): the row a well-formed line index reports for an offset (0-based r, is_row_of) is the
+/// number of line breaks ending at or before the offset - which is what the incremental locator is proved
+/// to return (1-based) by locate / locate_inner.  Hence both locators return the same row.
+proof fn theorem_index_row_is_break_count(idx: Seq<TextSize>, b: Seq<u8>, o: int, r: int)
+    requires index_wf(idx, b), is_row_of(idx, o, r), 0 <= o,
+    ensures r == nbe(b, o),
+    decreases o
+{
+    if o == 0 {
+        if r > 0 { assert(idx[0].raw < idx[r].raw); }
+    } else if is_break_end(b, o) {
+        let k = choose|k: int| 1 <= k < idx.len() && #[trigger] idx[k].raw == o;
+        if k < r { assert(idx[k].raw < idx[r].raw); }
+        if k > r {
+            if k > r + 1 { assert(idx[r + 1].raw < idx[k].raw); }
+            assert(false);
+        }
+        assert(idx[k - 1].raw < idx[k].raw);
+        assert(is_row_of(idx, o - 1, k - 1));
+        theorem_index_row_is_break_count(idx, b, o - 1, k - 1);
+    } else {
+        if idx[r].raw == o {
+            if r == 0 { assert(false); } else { assert(is_break_end(b, idx[r].raw as int)); assert(false); }
+        }
+        assert(is_row_of(idx, o - 1, r));
+        theorem_index_row_is_break_count(idx, b, o - 1, r);
     }
 }
 
